@@ -282,13 +282,36 @@ RussianOf(A, k) == PRu(IF k = 0 THEN AutoK(A.m, A.n) ELSE k)!PleRussian(A)
 RussianAuto(A) == RussianOf(A, 0)
 PRn == INSTANCE PLERec WITH WB <- 64, CUTW <- Cfg.ple_cutoff, BLOCKT <- Cfg.mul_blocksize, PIVRULE <- "first", BaseCase <- RussianAuto
 ECH == INSTANCE Echelon WITH KM <- 6
+\* the table parameter _mzd_echelonize_m4ri / _mzd_top_echelonize_m4ri choose for k = 0 (m4ri_opt_k, cap 7, cache adjustment)
+RECURSIVE Pow2(_)
+Pow2(k) == IF k = 0 THEN 1 ELSE 2 * Pow2(k - 1)
+AutoKE(m, n) ==
+  LET o == (3 * (1 + Log2Floor(Min({m, n})))) \div 4
+      k0 == IF o < 1 THEN 1 ELSE IF o > 16 THEN 16 ELSE o
+      k1 == IF k0 >= 7 THEN 7 ELSE k0
+  IN IF 3 * Pow2(k1) * n > 2 * Cfg.l3 THEN k1 - 1 ELSE k1
+\* _mzd_density(A, 32, r, c) >= thr / 1000 (the comparison of the two quotients is exact in integers: they differ by far
+\* more than the rounding of a double unless they are equal)
+CountFrom(R, lo, hi, c0, c1) == FoldSet(LAMBDA i, acc : acc + Cardinality({x \in R[i] : x >= c0 /\ x < c1}), 0, lo .. hi)
+DensityGE(R, m, n, r, c, thr) ==
+  LET width == (n + 63) \div 64 IN
+  IF width = 1 THEN CountFrom(R, r, m - 1, c, n) * 1000 >= thr * (n * m)
+  ELSE LET first == IF c < 64 THEN CountFrom(R, r, m - 1, c, 64) ELSE 0
+           j0 == IF c \div 64 > 1 THEN c \div 64 ELSE 1
+           words == {j \in j0 .. width - 2 : (j - j0) = 32 * ((j - j0) \div 32)}
+           mid == FoldSet(LAMBDA j, acc : acc + CountFrom(R, r, m - 1, 64 * j, 64 * j + 64), 0, words)
+           lastw == CountFrom(R, r, m - 1, 64 * (n \div 64), n)
+           total == (m - r) * (64 + 64 * Cardinality(words) + (n - 64 * (n \div 64)))
+       IN (first + mid + lastw) * 1000 >= thr * total
+EH == INSTANCE EchelonHybrid WITH WB <- 64, CUTW <- Cfg.ple_cutoff, BLOCKT <- Cfg.mul_blocksize, PIVRULE <- "first", BaseCase <- RussianAuto,
+                                  KM <- 6, GAP <- 256, IsDense <- DensityGE, TopK <- AutoKE
 SV == INSTANCE Solve WITH OLDPAD <- FALSE
 FactOf(R) == [LU |-> R.A, P |-> R.P, Q |-> R.Q, r |-> R.r]
 ConfSmall(o) == o.m * o.n <= 100 * 100 \/ (Cfg.l3 <= 4096 /\ o.m * o.n <= 350 * 270)
 SamePLE(R, ev) == R.r = ev.ret /\ R.P = ev.p.P /\ R.Q = ev.p.Q /\ Eq(R.A, Post(O(ev, 1)))
 ModelDrift(ev) ==
   LET op == ev.op  p == ev.p IN
-  IF CfgIdx = {} \/ ev.die = 1 \/ ~(op \in PleFamily \cup {"echelonize_m4ri", "top_echelonize_m4ri", "echelonize_pluq", "find_pivot", "solve_left", "_solve_left", "kernel_left_pluq"}) \/ ~ConfSmall(O(ev, 1)) THEN {}
+  IF CfgIdx = {} \/ ev.die = 1 \/ ~(op \in PleFamily \cup {"echelonize_m4ri", "_echelonize_m4ri", "echelonize", "top_echelonize_m4ri", "echelonize_pluq", "find_pivot", "solve_left", "_solve_left", "kernel_left_pluq"}) \/ ~ConfSmall(O(ev, 1)) THEN {}
   ELSE LET A == Pre(O(ev, 1)) IN
     CASE op = "_ple_russian" -> LET R == RussianOf(A, p.k) IN IF R.ok /\ SamePLE(R, ev) THEN {} ELSE {"drift_ple_russian"}
       [] op = "_pluq_russian" -> LET R == RussianOf(A, p.k) IN
@@ -316,9 +339,19 @@ ModelDrift(ev) ==
            IF p.k < 1 THEN {}
            ELSE IF Eq(ECH!TopEchelonM4RI(A, p.k).A, Post(O(ev, 1))) THEN {} ELSE {"drift_top_echelonize"}
       [] op = "echelonize_m4ri" ->
-           IF p.k < 1 THEN {}
-           ELSE LET R == ECH!EchelonM4RI(A, p.full = 1, p.k) IN
+           LET k == IF p.k = 0 THEN AutoKE(A.m, A.n) ELSE p.k IN
+           IF k < 1 THEN {}
+           ELSE LET R == ECH!EchelonM4RI(A, p.full = 1, k) IN
                 IF R.rank = ev.ret /\ Eq(R.A, Post(O(ev, 1))) THEN {} ELSE {"drift_echelonize_m4ri"}
+      \* the density-switching elimination: mzd_echelonize (automatic k, cross-over density 0.15) and the internal entry
+      \* point with an explicit k, switch and threshold (logged in thousandths)
+      [] op \in {"echelonize", "_echelonize_m4ri"} ->
+           LET k == IF op = "echelonize" \/ p.k = 0 THEN AutoKE(A.m, A.n) ELSE p.k
+               heur == op = "echelonize" \/ p.heur = 1
+               thr == IF op = "echelonize" THEN 150 ELSE p.thr IN
+           IF k < 1 THEN {}
+           ELSE LET R == IF heur THEN EH!EchelonHybrid(A, p.full = 1, k, thr) ELSE ECH!EchelonM4RI(A, p.full = 1, k) IN
+                IF R.rank = ev.ret /\ Eq(R.A, Post(O(ev, 1))) THEN {} ELSE {"drift_echelonize_hybrid"}
 
 \* C11: a checked wrapper called with incompatible dimensions must end in the error handler (die = 1)
 \* with every operand untouched
